@@ -101,15 +101,16 @@ def elf_parse(b):
     for i in range(shnum):
         h = b[shoff + i * entsize: shoff + (i + 1) * entsize]
         nm, ty, fl, ad, off, size = struct.unpack_from('<IIQQQQ', h, 0)
-        raw.append((nm, off, size, h))
+        raw.append((nm, off, size, h, ty))
     noff, nsize = raw[shstrndx][1], raw[shstrndx][2]
     if noff + nsize > len(b):
         return None
     tab = b[noff:noff + nsize]
-    for nm, off, size, h in raw:
+    for nm, off, size, h, ty in raw:
         end = tab.find(b'\0', nm) if nm < len(tab) else -1
         name = tab[nm:end] if end >= 0 else None
-        r['sections'].append({'name': name, 'name_off': nm, 'off': off, 'size': size, 'hdr': h})
+        # SHT_NOBITS (.bss, .tbss) occupies no bytes of the file
+        r['sections'].append({'name': name, 'name_off': nm, 'off': off, 'size': size, 'hdr': h, 'nobits': ty == 8})
     r['names_off'], r['names_size'] = noff, nsize
     return r
 
@@ -130,7 +131,7 @@ def elf_in_file_order(p):
     """Sections listed before the names section lie before the end of the name table, later ones after it."""
     ins = p['names_off'] + p['names_size']
     for i, s in enumerate(p['sections']):
-        if s['size'] == 0:
+        if s['size'] == 0 or s['nobits']:
             continue
         if i < p['shstrndx'] and s['off'] + s['size'] > ins:
             return False
